@@ -297,9 +297,21 @@ class World:
         d = {'objs': [], 'res': []}
         for i, o in enumerate(self.objs):
             od = {'feats': {}, 'isset': {}}
+            bad_index = []
             for fi in self.features_of(o):
                 od['feats'][fi] = self.values(o, fi)
                 od['isset'][fi] = 1 if o.eIsSet(self.feat(fi)) else 0
+                f = self.feat(fi)
+                if f.many and f.unique:
+                    # the position map of a unique collection (what index() answers) agrees with iteration: C04's
+                    # theorem for the model; a stale map shows only in later by-value operations otherwise
+                    coll = o.eGet(f)
+                    try:
+                        if [coll.index(v) for v in coll] != list(range(len(coll))):
+                            bad_index.append(fi)
+                    except Exception:  # noqa
+                        bad_index.append(fi)
+            od['bad_index'] = bad_index
             c = o.eContainer()
             od['container'] = self.oid.get(id(c), NONE_TOK if c is None else -2)
             cf = o.eContainmentFeature()
